@@ -504,7 +504,13 @@ func (cfg *Config) varInd(vr Variable, idx syntax.ArithmExpr) (string, bool, err
 			}
 			return strings.Join(strs, " "), vr.IsSet(), nil
 		}
-		val, err := Literal(cfg, idx.(*syntax.Word))
+		word, ok := idx.(*syntax.Word)
+		if !ok {
+			// TODO: the parser gives us an arithmetic expression for e.g. ${a[-1]}
+			// or ${a[x+1]}, but an associative array wants the subscript as a string.
+			return "", false, fmt.Errorf("unsupported subscript for an associative array")
+		}
+		val, err := Literal(cfg, word)
 		if err != nil {
 			return "", false, err
 		}
@@ -537,8 +543,13 @@ func (cfg *Config) assignElem(name string, vr Variable, idx syntax.ArithmExpr, v
 	case Associative:
 		key := "0"
 		if idx != nil {
+			word, ok := idx.(*syntax.Word)
+			if !ok {
+				// TODO: see the same case in varInd
+				return fmt.Errorf("unsupported subscript for an associative array")
+			}
 			var err error
-			if key, err = Literal(cfg, idx.(*syntax.Word)); err != nil {
+			if key, err = Literal(cfg, word); err != nil {
 				return err
 			}
 		}
